@@ -1,6 +1,7 @@
 package main
 
 import (
+	"os"
 	"bufio"
 	"fmt"
 	"io"
@@ -24,6 +25,8 @@ type Ctx struct {
 	pending strings.Builder
 	vars    []*Term
 	solver  *Solver
+	extracts map[*Term]extractInfo
+	concats  map[*Term][2]*Term
 }
 
 func NewCtx() *Ctx { return &Ctx{terms: map[string]*Term{}} }
@@ -110,6 +113,23 @@ func (c *Ctx) mk(w int, op string, args ...*Term) *Term {
 	fmt.Fprintf(&c.pending, "(define-fun %s () %s %s)\n", t.name, sortStr(w), eb.String())
 	c.terms[key] = t
 	return t
+}
+
+// UF applies an uninterpreted function (declared on first use for this arity/width signature).
+func (c *Ctx) UF(name string, w int, args ...*Term) *Term {
+	sig := name
+	for _, a := range args {
+		sig += fmt.Sprintf("_%d", a.w)
+	}
+	if _, ok := c.terms["decl:"+sig]; !ok {
+		var sb strings.Builder
+		for _, a := range args {
+			sb.WriteString(sortStr(a.w) + " ")
+		}
+		fmt.Fprintf(&c.pending, "(declare-fun %s (%s) %s)\n", sig, sb.String(), sortStr(w))
+		c.terms["decl:"+sig] = &Term{}
+	}
+	return c.mk(w, sig, args...)
 }
 
 func sext(v uint64, w int) int64 {
@@ -263,6 +283,11 @@ func (c *Ctx) Ite(g, a, b *Term) *Term {
 	return c.mk(a.w, "ite", g, a, b)
 }
 
+type extractInfo struct {
+	src    *Term
+	hi, lo int
+}
+
 func (c *Ctx) Extract(hi, lo int, a *Term) *Term {
 	if a.konst {
 		return c.BV(a.cv>>uint(lo), hi-lo+1)
@@ -270,7 +295,23 @@ func (c *Ctx) Extract(hi, lo int, a *Term) *Term {
 	if lo == 0 && hi == a.w-1 {
 		return a
 	}
-	return c.mk(hi-lo+1, fmt.Sprintf("(_ extract %d %d)", hi, lo), a)
+	if ei, ok := c.extracts[a]; ok { // extract of extract
+		return c.Extract(ei.lo+hi, ei.lo+lo, ei.src)
+	}
+	if ci, ok := c.concats[a]; ok { // extract of concat: descend when it falls into one side
+		if lo >= ci[1].w {
+			return c.Extract(hi-ci[1].w, lo-ci[1].w, ci[0])
+		}
+		if hi < ci[1].w {
+			return c.Extract(hi, lo, ci[1])
+		}
+	}
+	t := c.mk(hi-lo+1, fmt.Sprintf("(_ extract %d %d)", hi, lo), a)
+	if c.extracts == nil {
+		c.extracts = map[*Term]extractInfo{}
+	}
+	c.extracts[t] = extractInfo{a, hi, lo}
+	return t
 }
 
 func (c *Ctx) ZeroExt(a *Term, w int) *Term {
@@ -294,10 +335,21 @@ func (c *Ctx) SignExt(a *Term, w int) *Term {
 }
 
 func (c *Ctx) Concat(hi, lo *Term) *Term {
-	if hi.konst && lo.konst {
+	if hi.konst && lo.konst && hi.w+lo.w <= 64 {
 		return c.BV(hi.cv<<uint(lo.w)|lo.cv, hi.w+lo.w)
 	}
-	return c.mk(hi.w+lo.w, "concat", hi, lo)
+	// concat(extract(h,m+1,x), extract(m,l,x)) = extract(h,l,x)
+	if a, ok := c.extracts[hi]; ok {
+		if b, ok := c.extracts[lo]; ok && a.src == b.src && a.lo == b.hi+1 {
+			return c.Extract(a.hi, b.lo, a.src)
+		}
+	}
+	t := c.mk(hi.w+lo.w, "concat", hi, lo)
+	if c.concats == nil {
+		c.concats = map[*Term][2]*Term{}
+	}
+	c.concats[t] = [2]*Term{hi, lo}
+	return t
 }
 
 // ---------------------------------------------------------------- solver
@@ -311,6 +363,7 @@ type Solver struct {
 	unsat   int
 	unknown int
 	dur     time.Duration
+	log     io.Writer
 }
 
 func NewSolver(bin string, args ...string) *Solver {
@@ -322,6 +375,10 @@ func NewSolver(bin string, args ...string) *Solver {
 		panic(err)
 	}
 	s := &Solver{cmd: cmd, in: in, out: bufio.NewReader(outp)}
+	io.WriteString(in, "(set-option :timeout 20000)\n")
+	if p := os.Getenv("VERIF_SMTLOG"); p != "" {
+		s.log, _ = os.Create(p)
+	}
 	return s
 }
 
@@ -331,7 +388,12 @@ func (s *Solver) Close() {
 	s.cmd.Wait()
 }
 
-func (s *Solver) send(str string) { io.WriteString(s.in, str) }
+func (s *Solver) send(str string) {
+	if s.log != nil {
+		io.WriteString(s.log, str)
+	}
+	io.WriteString(s.in, str)
+}
 
 func (s *Solver) readLine() string {
 	l, err := s.out.ReadString('\n')
